@@ -43,6 +43,36 @@ fn files() -> Vec<FileSpec> {
     v
 }
 
+/// the shipped files plus the generated ones found in `gen` (sorted)
+fn files_with(gen: Option<&std::path::Path>) -> Vec<FileSpec> {
+    let mut v = files();
+    if let Some(g) = gen {
+        if let Ok(rd) = std::fs::read_dir(g) {
+            let mut ps: Vec<_> = rd.flatten().map(|e| e.path()).filter(|p| p.extension().map_or(false, |e| e == "cte")).collect();
+            ps.sort();
+            for p in ps {
+                v.push(FileSpec { path: p, kind: "gen" });
+            }
+        }
+    }
+    v
+}
+
+/// generated projects, written next to the run's output so that the workers can read them as files
+fn generated_files(dir: &std::path::Path, seed: u64, n: usize) -> Vec<FileSpec> {
+    let mut rng = crate::rng::Rng::new(seed ^ 0x19C);
+    let mut v = vec![];
+    std::fs::create_dir_all(dir).ok();
+    for i in 0..n {
+        let p = crate::bdlgen::gen_proj(&mut rng, &crate::bdlgen::GenOpts { rotated_spaces: i % 3 == 2, polygon_outlines: i % 2 == 1 });
+        let path = dir.join(format!("generated{i}.cte"));
+        if std::fs::write(&path, crate::bdlgen::print_proj(&p)).is_ok() {
+            v.push(FileSpec { path, kind: "gen" });
+        }
+    }
+    v
+}
+
 fn decode(bytes: &[u8]) -> String {
     match std::str::from_utf8(bytes) {
         Ok(s) => s.to_string(),
@@ -185,6 +215,15 @@ fn process(ctx: &Ctx, kind: &str, text: &str) -> Result<bool, anyhow::Error> {
             data.bdldata = with_catalog(data.bdldata, &ctx.catalog);
             Ok(Model::try_from(&data).is_ok())
         }
+        "gen" => {
+            // a generated project defines all it uses: no catalogue
+            let bdl = match hulc::bdl::Data::new(text) {
+                Ok(d) => d,
+                Err(_) => return Ok(false),
+            };
+            let data = hulc::ctehexml::CtehexmlData { bdldata: bdl, ..Default::default() };
+            Ok(Model::try_from(&data).is_ok())
+        }
         "cte" => {
             let bdl = match hulc::bdl::Data::new(text) {
                 Ok(d) => d,
@@ -214,7 +253,8 @@ fn worker(args: &Args) -> i32 {
     let from: usize = args.extra.get("from").and_then(|s| s.parse().ok()).unwrap_or(0);
     let stride: usize = args.extra.get("stride").and_then(|s| s.parse().ok()).unwrap_or(1).max(1);
     let offset: usize = args.extra.get("offset").and_then(|s| s.parse().ok()).unwrap_or(0);
-    let fs = files();
+    let gen = args.extra.get("gen").map(PathBuf::from);
+    let fs = files_with(gen.as_deref());
     let f = &fs[fi];
     let tmp = PathBuf::from(args.extra.get("tmp").cloned().unwrap_or_else(|| "/verif/.cache/run/c19-tmp".into()));
     std::fs::create_dir_all(&tmp).ok();
@@ -295,13 +335,46 @@ fn edge_cases(cw: &mut CaseWriter, seed: u64, n_random: usize) {
     }
 }
 
+/// damaged generated projects with the model's verdict: blocks -> typed elements -> conversion skeleton
+fn verdict_cases(cw: &mut CaseWriter, seed: u64, n: usize) {
+    let mut rng = crate::rng::Rng::new(seed ^ 0x7E2D);
+    let ctx = Ctx { catalog: Default::default(), tmp: PathBuf::from("/nonexistent") };
+    let mut i = 0;
+    while i < n {
+        let p = crate::bdlgen::gen_proj(&mut rng, &crate::bdlgen::GenOpts { rotated_spaces: i % 3 == 2, polygon_outlines: i % 2 == 1 });
+        let text = crate::bdlgen::print_proj(&p);
+        let lines: Vec<&str> = text.lines().collect();
+        for j in 0..20 {
+            let (t2, label) = if j == 0 {
+                (Some(text.clone()), "intact".to_string())
+            } else {
+                let li = rng.below(lines.len());
+                let kind = *rng.pick(&KINDS);
+                (damage(&lines, li, kind, text.len()), format!("{kind}@{li}"))
+            };
+            if let Some(t2) = t2 {
+                let r = std::panic::catch_unwind(std::panic::AssertUnwindSafe(|| process(&ctx, "gen", &t2)));
+                let v = match r {
+                    Ok(Ok(true)) => "converted",
+                    Ok(Ok(false)) | Ok(Err(_)) => "rejected",
+                    Err(_) => "crashed",
+                };
+                cw.write(json!({"op": "verdict", "kind": "verdict", "label": format!("proj{i}:{label}"), "text": t2, "impl": v}));
+                i += 1;
+            }
+        }
+    }
+}
+
 pub fn run(args: &Args) -> i32 {
     if args.extra.contains_key("worker") {
         return worker(args);
     }
     let mut cw = CaseWriter::new(&args.out, "cases.jsonl");
     let exe = std::env::current_exe().expect("exe");
-    let fs = files();
+    let gen_dir = PathBuf::from(&args.out).join("gen");
+    generated_files(&gen_dir, args.seed, if args.tier == "thorough" { 12 } else { 3 });
+    let fs = files_with(Some(&gen_dir));
     let counts = case_count(&fs);
     let thorough = args.tier == "thorough";
     // quick: a seeded 1-in-`stride` slice of the lines of every file; thorough: every line
@@ -324,7 +397,7 @@ pub fn run(args: &Args) -> i32 {
     let next = std::sync::Arc::new(std::sync::Mutex::new(0usize));
     let mut hs = vec![];
     for _ in 0..16 {
-        let (tx, next, exe, items, tmp) = (tx.clone(), next.clone(), exe.clone(), items.clone(), tmp.clone());
+        let (tx, next, exe, items, tmp, gen_dir) = (tx.clone(), next.clone(), exe.clone(), items.clone(), tmp.clone(), gen_dir.clone());
         let seed = args.seed;
         hs.push(std::thread::spawn(move || loop {
             let it = {
@@ -340,7 +413,7 @@ pub fn run(args: &Args) -> i32 {
             loop {
                 let mut child = match Command::new(&exe)
                     .args(["c19", "--worker", "1", "--file", &fi.to_string(), "--from", &from.to_string(), "--to", &to.to_string(), "--stride", &stride.to_string(),
-                           "--offset", &((seed as usize + fi) % stride.max(1)).to_string(), "--tmp", &tmp.to_string_lossy()])
+                           "--offset", &((seed as usize + fi) % stride.max(1)).to_string(), "--tmp", &tmp.to_string_lossy(), "--gen", &gen_dir.to_string_lossy()])
                     .stdout(Stdio::piped())
                     .stderr(Stdio::null())
                     .spawn()
@@ -435,6 +508,7 @@ pub fn run(args: &Args) -> i32 {
             "impl": {"class": class, "site": it.next(), "msg": it.next(), "count": n, "first_example": ex}}));
     }
     edge_cases(&mut cw, args.seed, if thorough { 4000 } else { 600 });
+    verdict_cases(&mut cw, args.seed, if thorough { 4000 } else { 400 });
     cw.write(json!({"op": "noop", "label": "summary", "kind": "summary",
         "impl": {"files": fs.len(), "lines": counts.iter().sum::<usize>(), "stride": stride, "outcomes": totals, "by_edit_and_file_kind": per_kind,
                  "exhaustive": stride == 1}}));
